@@ -26,6 +26,11 @@ CLAIMED = {
   "Runs the real client (dial, optional version discovery, three calls, Close, call after Close) with every I/O operation as a fault point; oracle: no panic, no caller blocked forever, own response or error, <=4 transmissions per call, the call after a failed call succeeds when no new fault hits it, calls after Close fail, Close idempotent, no goroutine of the client left at quiescence.",
   "Trusted: as C10; 'promptly' = no further external event needed. Bounds: 1 fault x delay bound 2 and 2 faults x delay bound 1 (quick); 2 faults / delay 3 / preemption-bounded variants under a deadline (thorough).",
   "DESIGN.md §2 E1, §3 C11"),
+ "C16": ("model_checking", "mcsched",
+  "stateless model checking of the real kmipserver Serve/Shutdown/handleConn code under a controlled scheduler: exhaustive DFS over interleavings of a free-running Shutdown thread, accept loop, connection goroutines, client scripts and the grace timer, within preemption / delay bounds",
+  "Connections are brought to each phase (connecting, idle, half request, inside a fast or never-ending handler, response stuck in a 16-byte pipe, failing connect hook, late accept); oracle: Shutdown returns, Serve ends with ErrShutdown, listener closed, no handler running at or started after the return, a handled request is answered unless the grace timer fired, handlers are only cancelled after the timer fired or their client left, terminate hook exactly once per successful connect hook and never otherwise, no per-connection goroutine left at quiescence.",
+  "Trusted: instrumenter + mc shim semantics (abstract timers), in-memory network incl. reset of the accept backlog on listener close. Bounds: <=2 connections, delay bound 3 (4 for the late-accept script) and preemption bound 1 (quick); delay 5 / preemption 3 under a deadline (thorough).",
+  "DESIGN.md §2 E1, §3 C16"),
 }
 NOT_YET = "check not built yet in this session (planned, see DESIGN.md §3)"
 NA = {}
